@@ -12,7 +12,7 @@ ops (instants are integer nanoseconds since the Unix epoch, may be negative):
   c08-within-u32 <v> <target> <margin>    → ok true|false     (mathext.WithinRange[uint32]; args in [0,2^32))
   c08-ts-ok <current minute> <stamped>    → ok true|false     (metadata timestamp check, fixed code)
   c08-ts-ok-u32 <current minute> <stamped>→ ok true|false     (as the unfixed code computed it)
-  c08-kc-new                              → ok <handle>       (one password: empty cache, decryptor holding nothing)
+  c08-kc-new <cacheValidIntervalNs>       → ok <handle>       (one password: empty cache, decryptor holding nothing)
   c08-kc-lookup <h> <nowNs> <jitterMs>    → ok used=<e> cache=<e> held=<e>      getCachedCiphers; e = <epoch>/<createNs> | none
   c08-kc-try <h> <nowNs> <jitterMs> <sender epoch>
                                           → ok key=<0|1|2|none> used=<e> cache=<e> held=<e>   tryDecryptAt of a segment
@@ -30,7 +30,7 @@ def showState (used : Entry Int) (s : State Int) : String :=
 def ints (l : List String) : Option (List Int) := l.mapM (·.toInt?)
 
 def handler : IO Handler := do
-  let st ← IO.mkRef (#[] : Array (State Int))
+  let st ← IO.mkRef (#[] : Array (Int × State Int))
   pure fun op args => do
     match op, ints args with
     | "c08-slot", some [t] =>
@@ -47,26 +47,26 @@ def handler : IO Handler := do
     | "c08-ts-ok-u32", some [n, o] =>
       if n < 0 ∨ o < 0 ∨ n ≥ u32 ∨ o ≥ u32 then return some "bad-op"
       else return some s!"ok {tsAcceptU32 n o}"
-    | "c08-kc-new", some [] =>
+    | "c08-kc-new", some [valid] =>
       let a ← st.get
-      st.set (a.push State.empty)
+      st.set (a.push (valid, State.empty))
       return some s!"ok {a.size}"
     | "c08-kc-lookup", some [h, now, j] | "c08-kc-peek-lookup", some [h, now, j] =>
       let a ← st.get
       match a[h.toNat]? with
-      | some s =>
+      | some (valid, s) =>
         if h < 0 then return some "bad-op" else
-        let r := step id s (.lookup now j)
-        if op == "c08-kc-lookup" then st.set (a.set! h.toNat r.2)
+        let r := step valid id s (.lookup now j)
+        if op == "c08-kc-lookup" then st.set (a.set! h.toNat (valid, r.2))
         return some s!"ok {showState r.1 r.2}"
       | none => return some "bad-op"
     | "c08-kc-try", some [h, now, j, se] | "c08-kc-peek-try", some [h, now, j, se] =>
       let a ← st.get
       match a[h.toNat]? with
-      | some s =>
+      | some (valid, s) =>
         if h < 0 then return some "bad-op" else
-        let r := step id s (.tryDecrypt now j)
-        if op == "c08-kc-try" then st.set (a.set! h.toNat r.2)
+        let r := step valid id s (.tryDecrypt now j)
+        if op == "c08-kc-try" then st.set (a.set! h.toNat (valid, r.2))
         let key := match (slotKeys r.1.keys).findIdx? (· == se) with
           | some i => toString i
           | none => "none"
